@@ -9,6 +9,7 @@ import (
 
 	obskeyper "github.com/shutter-network/rolling-shutter/rolling-shutter/chainobserver/db/keyper"
 	"github.com/shutter-network/rolling-shutter/rolling-shutter/keyper/epochkghandler"
+	"github.com/shutter-network/rolling-shutter/rolling-shutter/medley/beaconapiclient"
 	"github.com/shutter-network/rolling-shutter/rolling-shutter/medley/broker"
 	"github.com/shutter-network/rolling-shutter/rolling-shutter/medley/identitypreimage"
 	"github.com/shutter-network/rolling-shutter/rolling-shutter/p2p"
@@ -30,6 +31,16 @@ func VerifNewKeyper(
 
 func (kpr *Keyper) VerifTriggerDecryption(ctx context.Context, slot uint64, nextBlock int64, keyperSet *obskeyper.KeyperSet) error {
 	return kpr.triggerDecryption(ctx, slot, nextBlock, keyperSet)
+}
+
+// VerifSetBeaconAPIClient installs the consensus-node client that maybeTriggerDecryption asks for proposer duties.
+func (kpr *Keyper) VerifSetBeaconAPIClient(c *beaconapiclient.Client) {
+	kpr.beaconAPIClient = c
+}
+
+// VerifMaybeTriggerDecryption is what processNewSlot calls for a slot.
+func (kpr *Keyper) VerifMaybeTriggerDecryption(ctx context.Context, slot uint64) error {
+	return kpr.maybeTriggerDecryption(ctx, slot)
 }
 
 func (kpr *Keyper) VerifGetDecryptionIdentityPreimages(
